@@ -101,6 +101,107 @@ def make_instance(cls: Any, kind: str, i: int) -> Any:
     return inst
 
 
+async def library_scenario(case: dict[str, Any], out: dict[str, Any]) -> None:
+    from asphalt.core import Component, Context, ResourceEvent, current_context, start_component
+
+    V = out["violations"]
+
+    def bad(key: str, msg: str) -> None:
+        if not any(v["key"] == key for v in V):
+            V.append({"key": key, "msg": msg, "witness": {"case": case}})
+
+    owners: list[tuple[str, Any]] = []
+    heard: dict[str, list[Any]] = {}
+
+    async def listen(label: str, sig: Any, ready: anyio.Event) -> None:
+        async with sig.stream_events() as stream:
+            ready.set()
+            async for ev in stream:
+                heard.setdefault(label, []).append(ev)
+
+    class Child(Component):
+        async def start(self) -> None:
+            owners.append(("component-context", current_context()))
+            await anyio.sleep(1)
+
+    class Root(Component):
+        def __init__(self) -> None:
+            self.add_component("kid/alt" if case["slash_alias"] else "kid", Child)
+
+        async def start(self) -> None:
+            owners.append(("root-component-context", current_context()))
+
+    async with Context() as outer, anyio.create_task_group() as tg:
+        owners.append(("outer", outer))
+        kids = [Context() for _ in range(case["children"])]
+        owners.extend((f"child{i}", k) for i, k in enumerate(kids))
+
+        async def starter() -> None:
+            await start_component(Root)
+
+        tg.start_soon(starter)
+        await anyio.sleep(0.5)  # the child component is inside its start() now
+        bound = [(label, o, o.resource_added) for label, o in owners]
+        for (l1, o1, b1), (l2, o2, b2) in itertools.combinations(bound, 2):
+            if o1 is not o2 and b1 is b2:
+                bad("channel-shared[instances]", f"`resource_added` of {l1} and of {l2} (two different objects) is one and the same bound signal")
+        for label, o, b in bound:
+            if o.resource_added is not b:
+                bad("channel-not-stable", f"{label}.resource_added returned a different bound signal on a later access")
+        readies = []
+        for label, o, b in bound:
+            readies.append(anyio.Event())
+            tg.start_soon(listen, label, b, readies[-1])
+        for r in readies:
+            await r.wait()
+        # one publication in the outer context: an event on the outer context's channel, and on no other
+        outer.add_resource(object(), "probe")
+        await anyio.wait_all_tasks_blocked()
+        for label, o, b in bound:
+            evs = [e for e in heard.get(label, []) if isinstance(e, ResourceEvent) and e.resource_name == "probe"]
+            if label == "outer":
+                if len(evs) != 1 or evs[0].source is not outer:
+                    bad("channel-lost", f"the outer context's own listener heard {len(evs)} events for one publication")
+            elif evs:
+                bad("channel-crosstalk", f"a listener of {label}.resource_added heard the publication made in the outer context (event source: "
+                                         f"{'the outer context' if evs[0].source is outer else type(evs[0].source).__name__})")
+        # one stream over the channel of a short-lived context and a channel of some other object: when the context is gone, the
+        # other channel still delivers to that stream
+        from asphalt.core import Event, Signal, stream_events
+
+        class Src:
+            sig = Signal(Event)
+
+        src = Src()
+        both: list[Any] = []
+        both_ready = anyio.Event()
+
+        async def listen_both(sigs: list[Any]) -> None:
+            async with stream_events(sigs) as stream:
+                both_ready.set()
+                async for ev in stream:
+                    both.append(ev)
+
+        async with Context() as short:
+            tg.start_soon(listen_both, [short.resource_added, src.sig] if case["children"] % 2 else [src.sig, short.resource_added])
+            await both_ready.wait()
+            short.add_resource(object(), "short_lived")
+            await anyio.wait_all_tasks_blocked()
+        after = Event()
+        try:
+            src.sig.dispatch(after)
+        except Exception as e:
+            bad("channel-dispatch-raised", f"dispatching on a signal raised {describe_exc(e)} after a context whose `resource_added` shared a stream with it was closed")
+        await anyio.wait_all_tasks_blocked()
+        if len(both) != 2 or both[-1] is not after:
+            bad("channel-lost[combined-stream]", f"one stream over a short-lived context's `resource_added` and another signal received {len(both)} of 2 events "
+                                                 f"(the second one dispatched on the other signal after the context was closed)")
+        out["counters"]["library_channels_checked"] = len(bound)
+        out["counters"]["library_scenarios_with_a_component_context"] = int(any(l == "component-context" for l, _, _ in bound))
+        await anyio.sleep(1)
+        tg.cancel_scope.cancel()
+
+
 async def scenario(case: dict[str, Any], out: dict[str, Any]) -> None:
     from asphalt.core import SignalQueueFull, UnboundSignal  # noqa: F401
 
@@ -464,6 +565,10 @@ def gen_case(idx: int, seed: int, tier: str) -> Any:
     if idx < len(_ENUM):
         return _ENUM[idx]
     rng = case_rng(PROPERTY, seed, idx)
+    if (idx - len(_ENUM)) % 50 == 7:
+        # the library's own classes: a context, its child contexts and the context a component sees while it starts each have their
+        # own `resource_added` channel
+        return {"kind": "library", "backend": rng.choice(["asyncio", "trio"]), "children": rng.randint(1, 3), "slash_alias": rng.random() < 0.5}
     n_attrs = rng.randint(1, 4)
     sub = rng.random() < 0.6
     attrs = []
@@ -492,6 +597,13 @@ def run_case(case: Any) -> dict[str, Any]:
     contracts.install_channel_contract()
     before = contracts.LOG.evaluations.get("Signal.__get__", 0)
     out: dict[str, Any] = {"violations": [], "counters": {}}
+    if case["kind"] == "library":
+        try:
+            run_virtual(case["backend"], library_scenario, case, out)
+        except VirtualDeadlock as e:
+            out["violations"].append({"key": "channel-deadlock", "msg": str(e), "witness": {"case": case}})
+        contracts.LOG.drain()
+        return {"violations": out["violations"], "sig": ("library", repr(sorted(case.items()))), "nontrivial": True, "counters": out["counters"], "sample": None}
     try:
         run_virtual(case["backend"], scenario, case, out)
     except VirtualDeadlock as e:
